@@ -409,6 +409,41 @@ fn parsing_for<T: NT>(chk: &Check, id: &str, tier: Tier, cnt: &Counters) {
             }
         }
     }
+    // a second, smaller alphabet with multi-byte characters (2, 3 and 4 bytes in UTF-8): byte-offset
+    // slicing or per-byte classification goes wrong on exactly these
+    {
+        let sigma2 = ['1', '+', 'x', '0', '\u{e9}', '\u{20ac}', '\u{1F600}', '\u{a0}', '\u{ff11}'];
+        let mut level: Vec<String> = vec![String::new()];
+        for _ in 0..(if tier.thorough() { 4 } else { 3 }) {
+            let mut next = Vec::new();
+            for p in &level {
+                for &c in sigma2.iter() {
+                    let mut t = p.clone();
+                    t.push(c);
+                    tot += 1;
+                    if check_parse_one::<T>(chk, id, &t) {
+                        acc += 1;
+                    }
+                    next.push(t);
+                }
+            }
+            level = next;
+        }
+    }
+    // numerals around 2^k for k in {8, 16, 32, 64, 128}: a hand-rolled accumulator wraps there
+    for base in ["256", "65536", "4294967296", "18446744073709551616", "340282366920938463463374607431768211456"] {
+        let b: u128 = base.parse().unwrap_or(0);
+        for r in [0u32, 1, 2, 3, 15, 16, 127, 128, T::MAXV as u32, T::MAXV as u32 + 1] {
+            let n = if b == 0 { format!("{}{}", &base[..base.len() - 3], 456 + r) } else { (b + r as u128).to_string() };
+            for pre in ["", "+", "0"] {
+                let s2 = format!("{}{}", pre, n);
+                tot += 1;
+                if check_parse_one::<T>(chk, id, &s2) {
+                    acc += 1;
+                }
+            }
+        }
+    }
     for s in ["255", "256", "257", "65535", "65536", "65537", "4294967296", "18446744073709551616", "٣", "１", "1_0", "0x10", "1e1", "1.0", " 1", "1 ", "\t1", "+ 1", "++1", "+-1", "-+1", "−1", "1\n", "1\0"] {
         tot += 1;
         if check_parse_one::<T>(chk, id, s) {
